@@ -504,6 +504,10 @@ func (e *Exec) predeclareSiteWitnesses(st *State) {
 			if !ok {
 				continue
 			}
+			if id.Name == "reached" {
+				e.siteVars[w.Name] = vBool("false")
+				continue
+			}
 			var call ssa.CallInstruction
 			for in, cs := range e.callOrd {
 				if cs.name == sec.Callee && cs.k == sec.N {
